@@ -1,6 +1,6 @@
 SPECIFICATION Spec
 CONSTANTS
-  Modes = {"free", "rot"}
+  Modes = {"free", "rot", "dup"}
   FreeMax = 2
   NCFree = 5
   NCRot = 7
